@@ -219,3 +219,176 @@ def run_mc(stem, tier, work):
 
 for _p in CORE:
     REGISTRY[_p] = run_core
+
+# ---------------------------------------------------------------- C10 / C11: matchers
+
+def run_match(prop, tier, seed, t0):
+    what = 'scalar' if prop == 'C10' else 'range'
+    work = os.path.join(lib.BUILD, 'work-%s-%d' % (prop, os.getpid()))
+    shutil.rmtree(work, ignore_errors=True)
+    os.makedirs(work)
+    nviol, out_lines, skip = 0, [], set()
+    if what == 'range':
+        import gen_match
+        prs = gen_match.probes()
+        res = lib.probe_compile([p[2] for p in prs], os.path.join(work, 'probes'))
+        for (k, desc, expr), (ok, out) in zip(prs, res):
+            if not ok:
+                rp = os.path.join(lib.BUILD, 'replay'); os.makedirs(rp, exist_ok=True)
+                path = os.path.join(rp, '%s-compile-%s-%s.txt' % (prop, k, desc.replace(' ', '_')))
+                open(path, 'w').write('documented legal form does not compile (%s): %s\n\n%s\n' % (desc, expr, out[-3000:]))
+                out_lines.append('VIOLATION property=%s replay=%s' % (prop, path))
+                nviol += 1
+                if 'single element' in desc:
+                    skip.add(k)
+    d = lib.build_match(what, tier, seed, tuple(sorted(skip)))
+    raw = os.path.join(work, 'out.ndjson')
+    import subprocess
+    p = subprocess.run(['timeout', '900', os.path.join(d, 'drv_match'), raw], stdout=subprocess.PIPE, stderr=subprocess.STDOUT, text=True)
+    cat = {c['id']: c for c in json.load(open(os.path.join(d, 'catalogue.json')))}
+    crashed = p.returncode != 0
+    # merge catalogue into the recorded verdicts, split into chunks for parallel validation
+    lines = []
+    if os.path.exists(raw):
+        for l in open(raw):
+            try:
+                x = json.loads(l)
+            except Exception:
+                continue
+            c = cat[x['id']]
+            lines.append(json.dumps(dict(id=x['id'], kind='scalar' if what == 'scalar' else 'range', term=c['term'], x=x['x'], res=x['res'])))
+    if crashed:
+        last = json.loads(lines[-1])['id'] if lines else -1
+        path = os.path.join(lib.BUILD, 'replay'); os.makedirs(path, exist_ok=True)
+        path = os.path.join(path, '%s-crash.txt' % prop)
+        open(path, 'w').write('matcher driver crashed (rc=%d) after term id %d: %s\nnext term: %s\n%s\n' % (
+            p.returncode, last, cat.get(last, {}).get('cpp'), cat.get(last + 1, {}).get('cpp'), p.stdout[-2000:]))
+        out_lines.append('VIOLATION property=%s replay=%s' % (prop, path))
+        nviol += 1
+    nchunk = max(1, min(lib.NCPU, len(lines) // 20000 + 1))
+    chunks = [lines[i::nchunk] for i in range(nchunk)]
+    def one(i):
+        pth = os.path.join(work, 'n%d.ndjson' % i)
+        open(pth, 'w').write('\n'.join(chunks[i]) + '\n')
+        return lib.validate_generic('TraceMatchers.tla', 'TraceMatchers.cfg', pth, work, 'v%d' % i)
+    import concurrent.futures as cf
+    with cf.ThreadPoolExecutor(lib.NCPU) as ex:
+        res = list(ex.map(one, range(nchunk)))
+    errs = [r['error'] for r in res if 'error' in r]
+    if errs:
+        print('CHECK-ERROR property=%s %s' % (prop, errs[0][:2000])); return 2
+    viols = [v for r in res for v in r['viol']]
+    if viols:
+        by_id = {}
+        for v in viols:
+            by_id.setdefault(v['id'], []).append(v)
+        rp = os.path.join(lib.BUILD, 'replay'); os.makedirs(rp, exist_ok=True)
+        for tid, vs in list(by_id.items())[:10]:
+            path = os.path.join(rp, '%s-term%d.txt' % (prop, tid))
+            open(path, 'w').write('matcher expression: %s\nabstract term: %s\nverdicts that contradict spec/Matchers.tla:\n%s\n' % (
+                cat[tid]['cpp'], json.dumps(cat[tid]['term']), '\n'.join(json.dumps(v) for v in vs)))
+            out_lines.append('VIOLATION property=%s replay=%s' % (prop, path))
+            nviol += 1
+    mc = run_mc('MCMatchers', tier, work)
+    if mc.get('error'):
+        print('CHECK-ERROR property=%s model checking: %s' % (prop, mc['error'][:2000])); return 2
+    if mc.get('violated'):
+        path = os.path.join(lib.BUILD, 'replay', '%s-model.txt' % prop)
+        os.makedirs(os.path.dirname(path), exist_ok=True)
+        open(path, 'w').write(mc['output'])
+        out_lines.append('VIOLATION property=%s replay=%s' % (prop, path)); nviol += 1
+    for l in out_lines:
+        print(l)
+    # evidence: distinct non-trivial = distinct (term) whose recorded verdicts include both accept and reject
+    both = {}
+    for l in lines:
+        x = json.loads(l)
+        both.setdefault(x['id'], set()).add(x['res'])
+    nontriv = sum(1 for v in both.values() if len(v) == 2)
+    cov = dict(states=mc.get('distinct', 0), transitions=mc.get('generated', 0), traces_validated_against_impl=len(cat),
+               evaluations=len(lines), distinct_nontrivial=nontriv,
+               rule='every catalogue term (real matcher expression) is evaluated through a real ALLOW_CALL / param_matches against every subject value; '
+                    'non-trivial = distinct term with both an accepted and a rejected subject',
+               samples=[dict(cpp=cat[i]['cpp'], term=cat[i]['term']) for i in list(cat)[:3]] + [json.loads(l) for l in lines[:2]],
+               model_checking=mc.get('summary', {}), exhaustive=(tier == 'thorough'), terms=len(cat), tree=lib.tree_hash())
+    lib.write_evidence(prop, tier, seed, 'model_checking', cov, time.time() - t0, nviol,
+                       ['strings are represented by their rank in the ordered test alphabet', 're(): `found` comes from an independent std::regex_search',
+                        'overlapping element matchers: any verdict of a greedy one-pass assignment is accepted (docs: "may or may not match")',
+                        'TLC and the JSON module are trusted'])
+    shutil.rmtree(work, ignore_errors=True)
+    log('%s %s: %d terms, %d verdicts, %d non-trivial, %d violations, %.0fs' % (prop, tier, len(cat), len(lines), nontriv, nviol, time.time() - t0))
+    return 1 if nviol else 0
+
+REGISTRY['C10'] = run_match
+REGISTRY['C11'] = run_match
+
+# ---------------------------------------------------------------- C18: value printing
+
+def _A(k, v=0, s='', c=()):
+    return {'k': k, 'v': v, 's': s, 'c': list(c)}
+_I = lambda n: _A('int', n)
+_EMB = {-1: ('No match for call of fi with signature void(int) with.\n  param  _1 == ', _I(255), '\n'),
+        -2: ('No match for call of fv with signature void(std::vector<int> const&) with.\n  param  _1 == ', _A('coll', 0, '', [_I(1), _I(255)]), '\n'),
+        -3: ('No match for call of fp with signature void(int*) with.\n  param  _1 == ', _A('null'), '\n'),
+        -4: ('No match for call of fo with signature void(Op<9> const&) with.\n  param  _1 == ', _A('opaque', 9), '\n'),
+        -5: ('m.fv(trompeloeil::_) with.\n  param  _1 == ', _A('coll', 0, '', [_I(7), _I(8)]), '\n'),
+        -6: ('m.fp(trompeloeil::_) with.\n  param  _1 == ', _A('null'), '\n')}
+
+def run_print(prop, tier, seed, t0):
+    import subprocess
+    work = os.path.join(lib.BUILD, 'work-%s-%d' % (prop, os.getpid()))
+    shutil.rmtree(work, ignore_errors=True); os.makedirs(work)
+    d = lib.build_print(tier)
+    raw = os.path.join(work, 'out.ndjson')
+    env = dict(os.environ); env.update(lib.SAN_ENV)
+    p = subprocess.run(['timeout', '300', os.path.join(d, 'drv_print'), raw], env=env, stdout=subprocess.PIPE, stderr=subprocess.STDOUT, text=True)
+    cat = {c['id']: c for c in json.load(open(os.path.join(d, 'catalogue.json')))}
+    nviol, out_lines = 0, []
+    rp = os.path.join(lib.BUILD, 'replay'); os.makedirs(rp, exist_ok=True)
+    if p.returncode != 0:
+        path = os.path.join(rp, 'C18-crash.txt')
+        open(path, 'w').write('print driver failed rc=%d (null dereference / sanitizer report while printing?)\n%s\n' % (p.returncode, p.stdout[-4000:]))
+        out_lines.append('VIOLATION property=C18 replay=%s' % path); nviol += 1
+    norm = os.path.join(work, 'norm.ndjson')
+    n = 0
+    with open(norm, 'w') as g:
+        for l in open(raw) if os.path.exists(raw) else []:
+            try:
+                x = json.loads(l)
+            except Exception:
+                continue
+            n += 1
+            if x['id'] < 0:
+                pre, val, suf = _EMB[x['id']]
+                g.write(json.dumps(dict(id=x['id'], kind='embed', pre=pre, val=val, suf=suf, out=x['out'])) + '\n')
+            else:
+                g.write(json.dumps(dict(id=x['id'], kind='print', val=cat[x['id']]['val'], before=x['before'], after=x['after'],
+                                        out=x['out'], bytes=x['bytes'])) + '\n')
+    r = lib.validate_generic('TracePrinting.tla', 'TracePrinting.cfg', norm, work, 'v')
+    if 'error' in r:
+        print('CHECK-ERROR property=C18 %s' % r['error'][:2000]); return 2
+    by_id = {}
+    for v in r['viol']:
+        by_id.setdefault(v['id'], []).append(v)
+    for vid, vs in list(by_id.items())[:10]:
+        path = os.path.join(rp, 'C18-value%d.txt' % vid)
+        open(path, 'w').write('value: %s\nmismatches against spec/Printing.tla:\n%s\n' % (
+            json.dumps(cat.get(vid, {'cpp': 'embedded in report/trace %d' % vid})), '\n'.join(json.dumps(v) for v in vs)))
+        out_lines.append('VIOLATION property=C18 replay=%s' % path); nviol += 1
+    for l in out_lines:
+        print(l)
+    cov = dict(states=n + 2, transitions=n + 1, traces_validated_against_impl=len(cat) + len(_EMB), evaluations=n,
+               distinct_nontrivial=len([c for c in cat.values() if c['val']['k'] in ('coll', 'opaque', 'null')]),
+               rule='every catalogue value is printed with trompeloeil::print under every prior stream state (base x fill x width x adjust); '
+                    'output and stream state after are compared with spec/Printing.tla by TLC; non-trivial = distinct composite, opaque or null value',
+               samples=[dict(type=cat[i]['type'], cpp=cat[i]['cpp'], val=cat[i]['val']) for i in list(cat)[:3]],
+               exhaustive=True, values=len(cat), tree=lib.tree_hash(),
+               explanation='TLC evaluates Render / the state law on every recorded event; there is no separate bounded model for C18')
+    lib.write_evidence(prop, tier, seed, 'model_checking', cov, time.time() - t0, nviol,
+                       ['padding of braces / nullptr under a non-zero width and flags seen by user printers are unspecified and not compared',
+                        'opaque test objects have bytes given by a formula known to the spec (also compared with the bytes the driver read)'])
+    shutil.rmtree(work, ignore_errors=True)
+    log('C18 %s: %d values, %d events, %d violations, %.0fs' % (tier, len(cat), n, nviol, time.time() - t0))
+    return 1 if nviol else 0
+
+REGISTRY['C18'] = run_print
